@@ -27,6 +27,16 @@ CLAIMED["C01"] = (
     "Trusted: Lean kernel; standard axioms; correspondence harness; astropy CompoundModel / fix_inputs evaluation (modelled, exercised).",
     "Lean 4 proof over hand-written generic model + differential correspondence + oracle search", "DESIGN.md §6 C01")
 
+CLAIMED["C07"] = (
+    "Lean 4 theorems relating every edit operation of the model (set_transform, insert_transform before/after incl. Python negative "
+    "indexing at the first frame, insert_frame on either side, bounding_box assignment) to the obvious list edit, exact characterisation "
+    "of rejected edits, composition of the transform sequence after insert_frame, the box kept while the step-0 transform object is "
+    "untouched, and distinct frame names as an invariant over histories of any length. Tied to gwcs/wcs.py by comparing the full observable "
+    "state (frames, attributes, box, every frame pair on probes) after every op, valid or rejected, of generated histories; an independent "
+    "Python reference list is the oracle (atomicity of rejected edits is checked there).",
+    "Trusted: Lean kernel; standard axioms; correspondence harness; astropy composition and ModelBoundingBox.validate (modelled).",
+    "Lean 4 refinement proofs over hand-written model + history correspondence + reference-list oracle", "DESIGN.md §6 C07")
+
 NOT_YET = "check not built yet in this round; will be claimed once its Lean model, theorems and correspondence run green"
 
 
